@@ -1089,15 +1089,19 @@ impl World {
         if self.h_node == Some(true) && self.held_session.map(|h| h < self.session).unwrap_or(false) {
             out.count("observation:end:node-store-holds-birth-of-an-older-session");
         }
+        // mechanism qualifier: the host still holds the NBIRTH of an OLDER node birth than the node's
+        // current one (the current NBIRTH, QoS 0, was lost or ignored) although the faults stopped. If the
+        // sequence numbers happen to line up the host has no symptom to react to (known finding K2).
+        let q = if self.h_node == Some(true) && self.held_session.map(|h| h < self.session).unwrap_or(false) { ":host-holds-superseded-nbirth" } else { "" };
         if rounds > ROUNDS {
             out.fail(
                 "C08:no-operator-action",
-                "not-within-R-rounds",
+                &format!("not-within-R-rounds{}", q),
                 format!("{} settling rounds of deliveries, time and ordinary publishes did not bring the host in sync; {}", ROUNDS, desc),
             );
         }
         if let Err((f, d)) = self.in_sync() {
-            out.fail("C08:converges", &f, format!("{}; {}", d, desc));
+            out.fail("C08:converges", &format!("{}{}", f, q), format!("{}; {}", d, desc));
         } else if !(self.to_host.is_empty() && self.to_node.is_empty()) {
             out.fail("C08:converges", "still-in-flight", desc.to_string());
         }
@@ -1253,6 +1257,8 @@ fn scripts() -> Vec<(&'static str, String, &'static str)> {
     let bdseq_wrap = format!("to=3000 | reg1 en1 {} non da pn:blk:1 pd1:blk:1 da", vec!["non da pn:blk:1 da noff da"; 256].join(" "));
     let bdseq_255 = format!("to=3000 | reg1 en1 {} non da pn:blk:1 pd1:blk:1 da", vec!["non noff da"; 255].join(" "));
     let v: Vec<(&'static str, &str, &'static str)> = vec![
+        ("k2-session-confusion-loss-only", "to=3000 | non pn:blk:1 pn:blk:1 reg1 en1 dl0 drop0 nrb drop0 dis1 drop1 pn:blk:1 drop3 da", "KNOWN FINDING K2. FIFO delivery, QoS-0 loss only: two NDATA of the first birth, the NBIRTH of the manual rebirth and one NDATA of the second birth are lost; the DBIRTH (seq 3) of the first birth is then released after the DBIRTH/DDEATH (seq 1, 2) of the second: the host is in step with the node for good and holds the disabled device birthed"),
+        ("k2-session-confusion-metric-set", "to=3000 | non da mset1 nrb drop0 da", "KNOWN FINDING K2. the rebirth NBIRTH (QoS 0) is lost when nothing else was sent in the old birth: sequence numbers line up, a lenient store cannot notice the new metric set"),
         ("bdseq-255-session", &bdseq_255, "the node's 256th session carries bdSeq 255, the last value before the wrap: the host must hold it birthed like any other"),
         ("bdseq-wraps-through-255", &bdseq_wrap, "a long history: the node reconnects 256 times, so its sessions carry every bdSeq value including 255 and the wrap to 0; each NBIRTH and each will must be accepted by the host"),
         ("reorder-timeout-fires-during-node-lines", &timer_in_node_lines, "a gap opens at the host, then the node publishes 55 times (55 node lines = 55 ms) with nothing delivered: the 50 ms reorder timer fires while a node line runs; the `host adv` line that reports those milliseconds to the host model carries the stale + NCMD effects"),
